@@ -52,16 +52,32 @@ func spell(t *sim.Tape, target, refDir string, relativeOK bool) string {
 		}
 		return out
 	}
-	style := t.Choose(7)
+	// unclean tails: the only unclean part may be the very end of the name
+	tail := func(s string) string {
+		switch t.Choose(6) {
+		case 1:
+			return s + "/"
+		case 2:
+			return s + "/."
+		case 3:
+			return s + "/zz/.."
+		case 4:
+			return s + "//"
+		}
+		return s
+	}
+	style := t.Choose(8)
 	switch style {
 	case 0: // absolute clean
 		return "/" + strings.Join(segs, "/")
+	case 7: // absolute, clean except for its tail
+		return tail("/" + strings.Join(segs, "/"))
 	case 1: // absolute unclean
 		s := "/" + strings.Join(noise(segs), "/")
 		if t.Choose(4) == 3 {
 			s = "/.." + s
 		}
-		return s
+		return tail(s)
 	case 2, 3: // relative from the referrer's directory
 		if !relativeOK {
 			// root-relative without leading slash
@@ -92,6 +108,9 @@ func spell(t *sim.Tape, target, refDir string, relativeOK bool) string {
 			}
 		}
 		parts = append(parts, rest...)
+		if style == 3 {
+			return tail(strings.Join(parts, "/"))
+		}
 		return strings.Join(parts, "/")
 	case 4: // climbs above the root
 		ups := strings.Repeat("../", len(strings.Split(refDir, "/"))+t.Range(1, 3))
